@@ -25,7 +25,7 @@ ASSUMPTIONS = [
 
 
 def gen_cases(tier, seed):
-    n = 1800 if tier == "quick" else 60000
+    n = 1800 if tier == "quick" else 30000
     out = []
     for i in range(n):
         s = env.seed_for(seed, ID, tier, i)
